@@ -274,7 +274,7 @@ impl Prop for C08 {
         if c.hash_seed != 0 { out.push(HybCase { hash_seed: 0, ..c.clone() }); }
         out
     }
-    fn rule(&self) -> String { "A case is one lineage DAG over <=12 seeds (independent and exclusive groups) with a HybridConfig and a clock script: one fault-free evaluation under the simulated clock, then one evaluation per fault position (clock jumps one hour at reading j; every j in EveryReading mode), plus compile_lineage_to_sdd_with_clock under its own jump positions and small node budgets, plus evaluate_topk for monotone independent cones. Non-trivial = possible-worlds probability strictly between 0 and 1 and at least 3 internal nodes; distinct = hash of (seeds, DAG, config).".into() }
+    fn rule(&self) -> String { "A case is one lineage DAG over <=12 seeds (independent and exclusive groups) with a HybridConfig and a clock script: one fault-free evaluation under the simulated clock, then one evaluation per fault position (clock jumps one hour at reading j; every j in EveryReading mode), plus compile_lineage_to_sdd_with_clock under its own jump positions and small node budgets, plus evaluate_topk for monotone independent cones. Non-trivial = possible-worlds probability strictly between 0 and 1 and at least 3 internal nodes; distinct = hash of (seeds, DAG, config). The pipeline variant asks the retained materialisation again under a second threshold (each answer judged against the threshold of its own call).".into() }
     fn assumptions(&self) -> Vec<String> { vec![
         "possible-worlds enumeration (<=4096 worlds; exclusive groups: exactly one member true, member probabilities sum to 1) is the oracle".into(),
         "soundness only: nothing is required about which result variant comes back or how fast; Indeterminate and UnsafeApproximation are always acceptable".into(),
